@@ -16,6 +16,7 @@ import (
 	"bytes"
 	"fmt"
 	"io"
+	stdlog "log"
 	"os"
 	"path/filepath"
 	"sort"
@@ -39,6 +40,7 @@ import (
 
 func init() {
 	log.Root().SetHandler(log.DiscardHandler())
+	stdlog.SetOutput(io.Discard) // autofile warns through the standard logger
 	kernel.Register(&kernel.Rig{
 		Property: "C14",
 		Name:     "wal",
@@ -46,11 +48,11 @@ func init() {
 		Rule: "sequences of 6..120 (thorough ..400) records of every kind the node writes (EventDataRoundState, peer/own ProposalMessage, BlockPartMessage, VoteMessage, timeouts, EndHeightMessage at increasing heights) written through the real baseWAL.Write/WriteSync " +
 			"into a real autofile.Group on disk, head size limit drawn from 200 B up to 'never', the group's periodic head-size check performed at tape-chosen instants between writes (also between the write and the flush of a WriteSync); 1 run in 6 uses block parts of 8..45 KB so that the group's 40 KB write buffer spills mid-record; " +
 			"then on the files on disk: truncation of the concatenation (= of the newest file for the last offsets) at EVERY offset and a single-byte change at EVERY offset (header bytes: up to 4 values, payload bytes: 1 value) when that fits the per-run budget of damaged reads (quick 6000, thorough 40000, less for logs with many or large records: the budget is capped by the decode work), " +
-			"else +-9 bytes around every marker, every file boundary, the end of the log and as many other record boundaries as fit, plus a seeded sample; a few cuts per run are also read through a freshly opened group in which the files after the cut are absent; half of the rotated logs are renumbered before the reopen so that their file indices straddle 999|1000 or 9999|10000 or lie beyond 999 (a long-lived node whose old files were pruned), and the reopened group's index range is compared with the directory. One oracle evaluation = one damaged (or intact) log read back. " +
+			"else +-9 bytes around every marker, every file boundary, the end of the log and as many other record boundaries as fit, plus a seeded sample; a few cuts per run are also read through a freshly opened group in which the files after the cut are absent; half of the rotated logs are renumbered before the reopen so that their file indices straddle 999|1000 or 9999|10000 or lie beyond 999 (a long-lived node whose old files were pruned), and the reopened group's index range is compared with the directory. Before that, a live phase per run: 8..36 (thorough ..90) small records through a started baseWAL inside one virtual-time bubble, head limit 120..900 B, total-size limit off or 500..3000 B; up to 5 readers obtained from NewReader(index) and from SearchForEndHeight(marker) at tape-chosen instants and advanced by tape-chosen amounts between the writes, interleaved with Write/WriteSync, Flush, explicit RotateFile and virtual sleeps of 1..11 s during which the group's real ticker routine rotates and prunes; after a final flush every reader reads to the end. One oracle evaluation = one damaged (or intact) log read back, or one live reader read to its end. " +
 			"Non-trivial: >= 3 record kinds, >= 2 end-height markers, >= 200 damaged reads. Fingerprint: record kinds/sizes, file layout, per-class counts of read-back results.",
-		Real: []string{"consensus.baseWAL (NewWAL, Write, WriteSync, SearchForEndHeight)", "consensus.WALEncoder / WALDecoder / DataCorruptionError", "autofile.Group (buffered Write, Flush, RotateFile, readGroupInfo, NewReader) and GroupReader.Read across rotated files", "autofile.AutoFile on real files",
+		Real: []string{"consensus.baseWAL (NewWAL, Write, WriteSync, SearchForEndHeight)", "consensus.WALEncoder / WALDecoder / DataCorruptionError", "autofile.Group (buffered Write, Flush, RotateFile, readGroupInfo, NewReader) and GroupReader.Read across rotated files", "autofile.AutoFile on real files", "live phase: baseWAL.Start/Stop, Group.processTicks -> checkHeadSizeLimit / checkTotalSizeLimit on the bubble's virtual clock, GroupReader against a group that is written, rotated and pruned under it",
 			"ser codec of TimedWALMessage and of every consensus message type", "consensus msgInfo/timeoutInfo records (through the verif hook constructors)"},
-		Stub: []string{"baseWAL.OnStart/OnStop are not called (their goroutines cannot live in a virtual-time bubble): the harness writes the initial EndHeightMessage{0} with WriteSync as OnStart does on an empty head, and flushes+closes the group as OnStop does",
+		Stub: []string{"damage phase: baseWAL.OnStart/OnStop are not called (their goroutines cannot live in a virtual-time bubble): the harness writes the initial EndHeightMessage{0} with WriteSync as OnStart does on an empty head, and flushes+closes the group as OnStop does",
 			"Group.processTicks/checkHeadSizeLimit: the harness performs the same check (Head.Size() >= HeadSizeLimit() -> RotateFile()) at tape-chosen instants instead of every 5 s of wall time",
 			"wall clock: writes run inside a testing/synctest bubble so that the time stamp inside every record (and therefore every byte offset) is a function of the seed",
 			"disk damage: os.Truncate / one-byte pwrite on the real files"},
@@ -58,7 +60,8 @@ func init() {
 			"Damage is a cut of the concatenated log (files after the cut empty or absent) or one altered byte; torn writes in the middle of older files, several damaged bytes, lost or reordered files are not generated.",
 			"Messages are compared by re-encoding the decoded TimedWALMessage (time stamp included) with the real codec against the bytes the real WALEncoder produced at write time; a codec that does not round-trip would be reported here although it belongs to C11.",
 			"Under truncation every completely written record before the cut must be yielded and every completely written marker found (both values of IgnoreDataCorruptionErrors). Under a single-byte change SearchForEndHeight must be sound (found => written); when the changed byte is in the checksum or payload (length field intact, stream stays in step) a search with IgnoreDataCorruptionErrors=true must also find every other completely written marker, before and after the damaged record, and the decoder's error for that record must satisfy consensus.IsDataCorruptionError; for a changed length byte only soundness is demanded. The decoder must yield the records before the damaged one plus nothing that was not written; continuing after a DataCorruptionError (what IgnoreDataCorruptionErrors does) must also never yield an unwritten message.",
-			"Total-size pruning of old WAL files (checkTotalSizeLimit) is switched off; writer restarts on an existing log are not generated.",
+			"Total-size pruning of old WAL files (checkTotalSizeLimit) is exercised only in the live phase; writer restarts on an existing log are not generated.",
+			"Live phase: a reader is only asked for records the harness knows to be completely on disk (reading into a half-flushed tail is the truncation case of the damage phase), SearchForEndHeight is only called when the log ends at a record boundary and the head file exists; a reader may fail only when the file it has to open next was removed by the pruning; the steps of reader, writer and ticker routine are sequential (tape-ordered), true parallel races inside one Read are not generated.",
 			"CRC32C detects every single-byte change; the oracle does not rely on it, but an undetected change that decodes to an unwritten message would be reported as a violation (probability 2^-32 per length-field change).",
 		},
 		QuickRuns: 240, QuickBudget: 50 * time.Second,
@@ -315,8 +318,9 @@ type state struct {
 	// marker searches open every file from the newest down: on logs with many
 	// files only every searchStride-th damaged read is followed by searches
 	searchStride int
-	shift        int // rotated files renumbered by this much before the reopen (long-lived log)
-	searchWork   int // estimated file opens spent in searches so far
+	live         map[string]interface{} // summary of the live phase
+	shift        int                    // rotated files renumbered by this much before the reopen (long-lived log)
+	searchWork   int                    // estimated file opens spent in searches so far
 	searchCap    int
 }
 
@@ -434,6 +438,19 @@ func run(c *kernel.Ctx) {
 	defer dropRunDir(dir)
 
 	st := &state{c: c, recs: recs, written: map[uint64]bool{}, stats: map[string]int{}, unreadableFrom: -1}
+
+	// ---- live phase: readers open while the log is written, rotated and pruned
+	liveDir := filepath.Join(dir, "live")
+	if err := os.MkdirAll(liveDir, 0700); err != nil {
+		c.HarnessTrouble("scratch: %v", err)
+		return
+	}
+	st.live = runLive(c, liveDir).summary()
+	os.RemoveAll(liveDir)
+	if c.Failed() {
+		st.sample(map[string]int{}, limit, 0, 0)
+		return
+	}
 
 	// ---- write phase: real baseWAL on real files, virtual clock
 	rotations, ok := st.writeAll(filepath.Join(dir, "wal"), limit)
@@ -807,7 +824,7 @@ func (st *state) sample(kinds map[string]int, limit int64, nCut, nFlip int) {
 	}
 	st.c.Sample(map[string]interface{}{
 		"records": len(st.recs), "kinds": kinds, "head_size_limit": lim, "file_sizes": files, "marker_heights": hs,
-		"file_starts_mid_record": st.midRecord, "file_index_shift": st.shift, "truncated_reads": nCut, "bytechange_reads": nFlip, "read_back_results": st.stats,
+		"file_starts_mid_record": st.midRecord, "file_index_shift": st.shift, "truncated_reads": nCut, "bytechange_reads": nFlip, "read_back_results": st.stats, "live_phase": st.live,
 	})
 }
 
